@@ -47,11 +47,18 @@ inductive Expr where
   | lit (v : Val)
   | add (a b : Expr)
   | call (n : Nat) (arg : Expr)
-  | catch (e : Expr) (cls : Nat) (rc : Nat)
+  | catch (e : Expr) (cls : Nat) (rc : TH)
   deriving DecidableEq, Repr, Inhabited
 
 /-- the file system as the cache sees it: path -> (size, mtime) stamp -/
 abbrev FS := Nat → Nat
+
+/-- what a task function can observe besides its argument, and what `is_valid` compares cached values with:
+the stamp of each file (`File(path)` built in the body) and the registry's current version of each task
+(a `Task` object mentioned in the body, e.g. the recover task handed to `catch`, is pickled with its hash) -/
+structure World where
+  fs : FS
+  ver : Nat → Nat
 
 /-- what running a task function gives: an expression (the single reduction) or a raised error -/
 inductive Out where
@@ -61,7 +68,7 @@ inductive Out where
 
 /-- the code universe: the body belonging to each task hash (C17) -/
 structure Prog where
-  body : TH → Val → FS → Out
+  body : TH → Val → World → Out
 
 /-- the task registry at one moment: current version of each task name and its `check_valid` option
 (a base option: it is not part of the task hash) -/
@@ -86,17 +93,17 @@ structure Variant where
 def Variant.repaired : Variant := ⟨true, true⟩
 
 /-- `File.is_valid`: the recorded stamp is still the file's stamp -/
-def validV (fs : FS) : Val → Bool
-  | .file p s => fs p == s
+def validV (w : World) : Val → Bool
+  | .file p s => w.fs p == s
   | _ => true
 
 /-- `_is_valid_value` on a cached single reduction: `TaskExpression.is_valid` checks every `Value` among the
 arguments (recursively for nested expressions); `SimpleExpression` inherits `Value.is_valid` = True as found -/
-def validE (V : Variant) (fs : FS) : Expr → Bool
-  | .lit v => validV fs v
-  | .add a b => if V.simpleExprValid then validE V fs a && validE V fs b else true
-  | .call _ a => validE V fs a
-  | .catch e _ _ => validE V fs e
+def validE (V : Variant) (w : World) : Expr → Bool
+  | .lit v => validV w v
+  | .add a b => if V.simpleExprValid then validE V w a && validE V w b else true
+  | .call _ a => validE V w a
+  | .catch e _ rc => (w.ver rc.name == rc.ver) && validE V w e      -- `Task.is_valid`: hash still the registry's
 
 abbrev Key := TH × Val
 
@@ -165,9 +172,9 @@ def finishJob (V : Variant) (st : St) (k : Key) (r : Res) (ue : List TH) : St ×
   ({ st1 with cse := (k, r, cseSub V k.1 sub) :: st1.cse }, r, sub)
 
 /-- cache miss: submit the job; the task function runs (`done_job` -> `set_cache`, or `reject_job`) -/
-def runBody (V : Variant) (P : Prog) (fs : FS) (ev : St → Expr → R) (st : St) (k : Key) : R :=
+def runBody (V : Variant) (P : Prog) (w : World) (ev : St → Expr → R) (st : St) (k : Key) : R :=
   let st0 := { st with log := st.log ++ [k] }
-  match P.body k.1 k.2 fs with
+  match P.body k.1 k.2 w with
   | .raise cl => some (finishJob V st0 k (.err cl) [])
   | .ret e =>
     match ev { st0 with evals := (k, e) :: st0.evals } e with
@@ -175,7 +182,7 @@ def runBody (V : Variant) (P : Prog) (fs : FS) (ev : St → Expr → R) (st : St
     | some (st2, r, ue) => some (finishJob V st2 k r ue)
 
 /-- one job: `_exec_job_main_thread` from the cache lookup on, for the call of task `nm` on value `va` -/
-def jobStep (V : Variant) (P : Prog) (c : Code) (fs : FS) (ev : St → Expr → R) (st : St) (nm : Nat)
+def jobStep (V : Variant) (P : Prog) (c : Code) (w : World) (ev : St → Expr → R) (st : St) (nm : Nat)
     (va : Val) : R :=
   let h := c.th nm
   let k : Key := (h, va)
@@ -191,60 +198,60 @@ def jobStep (V : Variant) (P : Prog) (c : Code) (fs : FS) (ev : St → Expr → 
       -- ultimate reduction: errors and invalid values are not used, and the single reduction is not tried
       match nd.res with
       | .ok v =>
-        if validV fs v then some ({ st with cse := (k, .ok v, nd.sub) :: st.cse }, .ok v, nd.sub)
-        else runBody V P fs ev st k
-      | .err _ => runBody V P fs ev st k
+        if validV w v then some ({ st with cse := (k, .ok v, nd.sub) :: st.cse }, .ok v, nd.sub)
+        else runBody V P w ev st k
+      | .err _ => runBody V P w ev st k
     | none =>
       match lookup k st.evals with
       | some e =>
-        if validE V fs e then
+        if validE V w e then
           match ev st e with
           | none => none
           | some (st2, r, ue) => some (finishJob V st2 k r ue)
-        else runBody V P fs ev st k
-      | none => runBody V P fs ev st k
+        else runBody V P w ev st k
+      | none => runBody V P w ev st k
 
 /-- The evaluator (`Scheduler.evaluate` under one parent job), sequential, left to right, aborting at the
 first error as the execution does.  Returns the new backend state, the outcome and the subtree task hashes
 of the jobs that ended under this expression.  `none` = out of fuel. -/
-def eval (V : Variant) (P : Prog) (c : Code) (fs : FS) : Nat → St → Expr → R
+def eval (V : Variant) (P : Prog) (c : Code) (w : World) : Nat → St → Expr → R
   | 0, _, _ => none
   | _ + 1, st, .lit v => some (st, .ok v, [])
   | n + 1, st, .add a b =>
-    match eval V P c fs n st a with
+    match eval V P c w n st a with
     | none => none
     | some (st1, .err x, u1) => some (st1, .err x, u1)
     | some (st1, .ok va, u1) =>
-      match eval V P c fs n st1 b with
+      match eval V P c w n st1 b with
       | none => none
       | some (st2, .err x, u2) => some (st2, .err x, unionTH u1 u2)
       | some (st2, .ok vb, u2) => some (st2, addV va vb, unionTH u1 u2)
   | n + 1, st, .call nm a =>
-    match eval V P c fs n st a with
+    match eval V P c w n st a with
     | none => none
     | some (st1, .err x, u1) => some (st1, .err x, u1)
     | some (st1, .ok va, u1) =>
-      match jobStep V P c fs (eval V P c fs n) st1 nm va with
+      match jobStep V P c w (eval V P c w n) st1 nm va with
       | none => none
       | some (st2, r, u2) => some (st2, r, unionTH u1 u2)
   | n + 1, st, .catch e cls rc =>
-    let ck : CKey := ⟨e, cls, c.th rc⟩
+    let ck : CKey := ⟨e, cls, rc⟩
     let recover (st1 : St) (u1 : List TH) : R :=
       -- promise_catch: recover_expr = recover(error); cached under catch's key once it succeeded (on_recover)
-      let re := Expr.call rc (.lit (.exc cls))
-      match eval V P c fs n st1 re with
+      let re := Expr.call rc.name (.lit (.exc cls))
+      match eval V P c w n st1 re with
       | none => none
       | some (st2, .ok v, u2) => some ({ st2 with catches := (ck, re) :: st2.catches }, .ok v, unionTH u1 u2)
       | some (st2, .err x, u2) => some (st2, .err x, unionTH u1 u2)
     match lookup ck st.catches with
     | some ce =>
       -- cached expression (`expr` or `recover_expr`): evaluated without a validity check, `.catch(promise_catch)`
-      match eval V P c fs n st ce with
+      match eval V P c w n st ce with
       | none => none
       | some (st1, .ok v, u1) => some (st1, .ok v, u1)
       | some (st1, .err x, u1) => if x = cls then recover st1 u1 else some (st1, .err x, u1)
     | none =>
-      match eval V P c fs n st e with
+      match eval V P c w n st e with
       | none => none
       | some (st1, .ok v, u1) => some ({ st1 with catches := (ck, e) :: st1.catches }, .ok v, u1)   -- on_success
       | some (st1, .err x, u1) => if x = cls then recover st1 u1 else some (st1, .err x, u1)
@@ -262,12 +269,14 @@ structure RunIn where
 /-- a new `Scheduler.run`: new execution id (nothing of earlier executions is visible to the CSE query) -/
 def St.newExec (st : St) : St := { st with cse := [], log := [] }
 
+def RunIn.world (ri : RunIn) : World := ⟨ri.fs, ri.code.ver⟩
+
 def runOne (V : Variant) (P : Prog) (st : St) (ri : RunIn) : R :=
-  eval V P ri.code ri.fs ri.fuel st.newExec ri.root
+  eval V P ri.code ri.world ri.fuel st.newExec ri.root
 
 /-- the same execution against an empty backend (the property's oracle) -/
 def fresh (V : Variant) (P : Prog) (ri : RunIn) (fuel : Nat) : Option Res :=
-  (eval V P ri.code ri.fs fuel {} ri.root).map fun x => x.2.1
+  (eval V P ri.code ri.world fuel {} ri.root).map fun x => x.2.1
 
 /-- run a history on one backend; collects each execution's outcome -/
 def runHist (V : Variant) (P : Prog) : St → List RunIn → Option (St × List Res)
@@ -299,17 +308,17 @@ def num : Val → Int
 
 /-- Python builds the returned expression: `+` on two concrete ints is computed at once, anything involving
 an Expression stays lazy -/
-def inst (a : Val) (fs : FS) : Tm → Expr
+def inst (a : Val) (w : World) : Tm → Expr
   | .arg => .lit a
   | .numarg => .lit (.int (num a))
   | .lit z => .lit (.int z)
-  | .file p => .lit (.file p (fs p))
+  | .file p => .lit (.file p (w.fs p))
   | .add s t =>
-    match inst a fs s, inst a fs t with
+    match inst a w s, inst a w t with
     | .lit (.int x), .lit (.int y) => .lit (.int (x + y))
     | es, et => .add es et
-  | .call n t => .call n (inst a fs t)
-  | .catch t cls rc => .catch (inst a fs t) cls rc
+  | .call n t => .call n (inst a w t)
+  | .catch t cls rc => .catch (inst a w t) cls ⟨rc, w.ver rc⟩
 
 inductive Spec where
   | ret (t : Tm)
@@ -318,9 +327,9 @@ inductive Spec where
 
 /-- program given by a finite table task hash -> body template (a missing entry raises class 98) -/
 def tableProg (tbl : List (TH × Spec)) : Prog where
-  body h a fs :=
+  body h a w :=
     match lookup h tbl with
-    | some (.ret t) => .ret (inst a fs t)
+    | some (.ret t) => .ret (inst a w t)
     | some (.raise c) => .raise c
     | none => .raise 98
 
